@@ -1,11 +1,12 @@
 #!/bin/bash
-# tools/tryseed.sh <patch.diff> <Cxx> [<Cyy> ...] : apply a seeded change to /repo, run the checks, undo it.
+# tools/tryseed.sh <patch.diff> <Cxx> [<Cyy> ...] : apply a seeded change to /repo, run the checks, undo it
+# (also when interrupted or timed out from outside).
 patch=$1; shift
 cd /repo && git apply --check "$patch" || { echo "patch does not apply"; exit 2; }
+trap 'git -C /repo checkout -- . ; git -C /repo status --short | head -3' EXIT INT TERM
 git apply "$patch"
 cd /verif
 for p in "$@"; do
   echo "=== $p"
-  ./check $p quick 2>&1 | grep -v 'ERROR\|WARN' | tail -4 | cut -c1-600
+  timeout 1500 ./check $p quick 2>&1 | grep -v 'ERROR\|WARN' | tail -4 | cut -c1-600
 done
-git -C /repo checkout -- . ; git -C /repo status --short | head -3
